@@ -259,6 +259,19 @@ func (s *httpSim) panos(w http.ResponseWriter, r *http.Request) {
 			}
 			ha = s.scn.HA[i]
 		}
+		if ha.Enabled == "garbled" {
+			switch ha.Mode {
+			case "error":
+				ok("<response status = 'error'>\n <msg><line>Server error : op command for client ha_agent timed out</line></msg>\n</response>\n")
+			case "trunc":
+				ok("<response status = 'success'>\n <result>\n  <enabled>yes</enabled>\n  <group>\n   <mode>Active-Pass")
+			case "notxml":
+				ok("HA agent is restarting, please try again later\n")
+			default:
+				ok("<response status = 'success'>\n <result>\n  <enabled>yes</enabled>\n  <group>\n  </group>\n </result>\n</response>\n")
+			}
+			return
+		}
 		if ha.Enabled != "yes" {
 			ok("<response status = 'success'>\n <result>\n  <enabled>no</enabled>\n </result>\n</response>\n")
 			return
